@@ -101,8 +101,9 @@ def bounded_fallback(prop, undecided, work, tier, seed, open_known):
         return None
     for spec in HARNESS.get('bounded', {}).get(prop, []):
         out, err = run_harness(['search', spec['harness'], '--tier', tier, '--seed', str(seed)])
-        if out and out.get('failures'):
-            f = out['failures'][0]
+        fl = [f for f in (out or {}).get('failures', []) if not spec.get('fns') or f.get('fn') in spec['fns']]
+        if fl:
+            f = fl[0]
             d = os.path.join(work, 'replay')
             os.makedirs(d, exist_ok=True)
             path = os.path.join(d, 'bounded_' + _safe(spec['harness'] + '_' + f.get('fn', '')) + '.json')
@@ -137,6 +138,8 @@ def bounded_leaves(prop, work, tier, seed, open_known):
                                   'bound': out.get('bound'), 'cases': n, 'failures': out.get('fail_counts', {}).get(fn, 0)})
         by_fn = {}
         for f in out.get('failures', []):
+            if spec.get('fns') and f.get('fn') not in spec['fns']:
+                continue
             by_fn.setdefault(f.get('fn'), []).append(f)
         for fn, fs in by_fn.items():
             ob = 'bounded:%s:%s' % (spec['harness'], fn)
